@@ -115,7 +115,7 @@ def run(ctx):
             continue
         shown[cls['kind']] = shown.get(cls['kind'], 0) + 1
         T = o['tuples']
-        ctx.violation('request %r (relaxed_header_parser=%d, request_header_max_size=%d) cut at %s: calls answered %s, one-shot parse answers %s' % (
+        ctx.violation(('UBSan reported undefined behaviour; ' if o['ub'] else '') + 'request %r (relaxed_header_parser=%d, request_header_max_size=%d) cut at %s: calls answered %s, one-shot parse answers %s' % (
             bytes(o['in'])[:100], o['relaxed'], o['limit'], r['cuts'][:12] if r else '?',
             [str(H.tuple_text(T[x]))[:200] for x in (r['mid'][-2:] + [r['fin']] if r else [])], str(H.tuple_text(T[o['one']]))[:300]),
             {'class': cls, 'case': H.project(o), 'run': r, 'line': cs.lines[i][:600]})
